@@ -103,6 +103,8 @@ static J gen_c08 (uint64_t seed, uint64_t idx)
 		else if (q < 90 && route != "vio" && frames > 0)
 		{	J c = mkop ("cmd") ; c ["id"] = "truncate" ; int64_t n = (int64_t) g.rng.below ((uint64_t) frames + 1) ; c ["arg"] = (long long) n ; ops.push (c) ;
 			frames = n ; rd = n ; wr = n ;
+			// a third of the truncations are the last thing done with the handle: nothing rewrites the length before close does
+			if (g.rng.chance (0.35)) { ops.push (mkop ("close")) ; in_rw = false ; }
 		}
 		else if (q < 94 && has_header (f)) { J c = mkop ("cmd") ; c ["id"] = "update_header" ; ops.push (c) ; }
 		else if (q < 98) { ops.push (mkop ("close")) ; J o = mkop ("open") ; o ["mode"] = "rw" ; ops.push (o) ; rd = 0 ; wr = frames ; }
@@ -486,6 +488,8 @@ static J gen_c14 (uint64_t seed, uint64_t idx)
 	int T = (int) g.rng.below (4) ; cfg ["T"] = stype_name (T) ;
 	DataDesc d ; d.cls = g.rng.chance (0.6) ? "noise" : "sine" ; d.stream = (int64_t) g.rng.below (1000) ; cfg ["data"] = data_desc_to (d) ;
 	cfg ["emb_k"] = (long long) g.rng.pick<int64_t> ({ 1, 2, 7, 123, 4096, 5000 }) ; cfg ["emb_t"] = (long long) g.rng.pick<int64_t> ({ 0, 1, 17, 4096 }) ;
+	if (g.rng.chance (0.15)) cfg ["fd0"] = 1 ;		// as if stdin were closed: the first descriptor handed out is number 0
+	cfg ["emb_wt"] = (long long) g.rng.pick<int64_t> ({ 0, 0, 1, 64, 20000 }) ;		// bytes already behind the descriptor position of an embedded write
 	{ J c = J::arr () ; for (int k = 0, n = (int) g.rng.range (1, 3) ; k < n ; k++) c.push ((long long) g.rng.pick<int64_t> ({ 1, 2, 3, 7, 4095, 4096, 4097, 0 })) ; cfg ["fifo_chunks"] = c ; }
 	int B = block_frames (f, ch, rate) ;
 	J wops = J::arr () ;
@@ -510,11 +514,11 @@ static J gen_c14 (uint64_t seed, uint64_t idx)
 static J c14_concrete (const J &plan, const std::string &wroute, const std::string &rroute, bool seq_only)
 {	const J &cfg = plan.at ("cfg") ;
 	J p = J::obj () ; p ["profile"] = "C14" ; p ["seed"] = plan.geti ("seed") ; p ["idx"] = plan.geti ("idx") ;
-	J c2 = J::obj () ; for (const char *k : { "fmt", "ch", "sr", "data", "T" }) if (cfg.has (k)) c2 [k] = cfg.at (k) ;
+	J c2 = J::obj () ; for (const char *k : { "fmt", "ch", "sr", "data", "T", "fd0" }) if (cfg.has (k)) c2 [k] = cfg.at (k) ;
 	c2 ["route"] = rroute ; p ["cfg"] = c2 ;
 	J ops = J::arr () ;
 	for (auto op : cfg.at ("wops").a)
-	{	if (op.gets ("op") == "open") { op ["route"] = wroute ; if (wroute == "embed") { op ["emb_k"] = cfg.geti ("emb_k") ; op ["expect"] = "any" ; } }
+	{	if (op.gets ("op") == "open") { op ["route"] = wroute ; if (wroute == "embed") { op ["emb_k"] = cfg.geti ("emb_k") ; op ["emb_wt"] = cfg.geti ("emb_wt", 0) ; op ["expect"] = "any" ; } }
 		ops.push (op) ;
 	}
 	for (auto op : cfg.at ("rops").a)
